@@ -175,3 +175,104 @@ pub fn to_banks(ctx: &SimCtx, ev: &SimEvent, ts: u32, scale: f64, noise: f64, rn
     banks.push(trg_bank_b(ts));
     banks
 }
+
+
+/// One sub-population of the forward model's event distribution (C12: "over ANY batch of at least 200
+/// such events").  `None` leaves a parameter to the full distribution.
+#[derive(Clone, Debug)]
+pub struct Stratum {
+    pub name: String,
+    pub ntracks: Option<usize>,
+    pub abs_slope: Option<(f64, f64)>,
+    pub abs_curv: Option<(f64, f64)>,
+    /// sign of the curvature radius per track (cycled)
+    pub charges: Option<Vec<i8>>,
+    /// (azimuth of the first track, azimuth difference of the following tracks), each +-0.15 rad
+    pub azimuth: Option<(f64, f64)>,
+    pub gain: f64,
+    /// per-event gain drawn log-uniformly from this range (multiplies `gain`)
+    pub gain_range: Option<(f64, f64)>,
+    pub abs_vz: Option<(f64, f64)>,
+}
+
+impl Stratum {
+    pub fn population() -> Stratum {
+        Stratum { name: "population".into(), ntracks: None, abs_slope: None, abs_curv: None, charges: None, azimuth: None, gain: 1.0, gain_range: None, abs_vz: None }
+    }
+}
+
+pub fn strata() -> Vec<Stratum> {
+    let mut v = vec![Stratum::population()];
+    let with = |name: String, f: &dyn Fn(&mut Stratum)| {
+        let mut s = Stratum::population();
+        s.name = name;
+        f(&mut s);
+        s
+    };
+    // Only sub-populations on which the unchanged library keeps every bound with a margin of a third or more
+    // (measured on 200-event batches, three seeds) are judged.  Not judged, because the forward model puts
+    // them at or near a bound although the whole distribution is far inside: two-track events that are steep
+    // and back to back (90th percentile of |dz| 3.7 - 5.9 cm), flat two-track events (median transverse
+    // 3.4 cm), gains of 0.1 and below (efficiency 94 - 98 %).  The statement quantifies over the distribution, not over these.
+    for g in [0.5, 0.2] {
+        v.push(with(format!("gain{g}"), &|s| s.gain = g));
+    }
+    // amplitudes varied per event over a decade (log-uniform)
+    v.push(with("gain-varied".into(), &|s| s.gain_range = Some((0.1, 1.0))));
+    for n in 3..=4 {
+        v.push(with(format!("ntracks{n}"), &|s| s.ntracks = Some(n)));
+    }
+    v.push(with("steep4".into(), &|s| { s.ntracks = Some(4); s.abs_slope = Some((0.5, 0.8)); }));
+    v.push(with("z-centre".into(), &|s| s.abs_vz = Some((0.0, 0.1))));
+    v.push(with("z-end".into(), &|s| s.abs_vz = Some((0.7, 0.8))));
+    v.push(with("tight".into(), &|s| s.abs_curv = Some((0.3, 0.6))));
+    v.push(with("straight".into(), &|s| s.abs_curv = Some((2.5, 3.3))));
+    v
+}
+
+/// An event of the stratum: the full distribution of `random_event`, conditioned.
+pub fn stratum_event<R: Rng>(ctx: &SimCtx, rng: &mut R, st: &Stratum) -> (SimEvent, usize) {
+    let mut ev = SimEvent { wires: BTreeMap::new(), pads: BTreeMap::new(), hits: vec![], vertex: (0.0, 0.0, 0.0) };
+    let ntracks = st.ntracks.unwrap_or_else(|| rng.gen_range(2..=4));
+    let vzabs = match st.abs_vz { Some((a, b)) => rng.gen_range(a..b), None => rng.gen_range(0.0..0.8) };
+    let (vx, vy, vz) = (rng.gen_range(-0.01..0.01), rng.gen_range(-0.01..0.01), vzabs * if rng.gen() { 1.0 } else { -1.0 });
+    ev.vertex = (vx, vy, vz);
+    let sigma = rng.gen_range(0.9..1.4);
+    let event_gain = match st.gain_range {
+        Some((a, b)) => (rng.gen_range(a.ln()..b.ln())).exp(),
+        None => 1.0,
+    };
+    for k in 0..ntracks {
+        let phi0: f64 = match st.azimuth {
+            Some((t0, d)) => t0 + d * k as f64 + rng.gen_range(-0.15..0.15),
+            None => rng.gen_range(0.0..2.0 * PI),
+        };
+        let cabs = match st.abs_curv { Some((a, b)) => rng.gen_range(a..b), None => rng.gen_range(0.3..3.3) };
+        let sign = match &st.charges { Some(c) => f64::from(c[k % c.len()]), None => if rng.gen() { 1.0 } else { -1.0 } };
+        let curv_r = cabs * sign;
+        let sabs = match st.abs_slope { Some((a, b)) => rng.gen_range(a..b), None => rng.gen_range(0.0..0.8) };
+        let slope = sabs * if rng.gen() { 1.0 } else { -1.0 };
+        let amp = rng.gen_range(60.0..250.0) * st.gain * event_gain;
+        let mut r = 0.1095;
+        while r < 0.1815 {
+            let phi = phi0 + (r / (2.0 * curv_r)).asin();
+            let x = vx + r * phi.cos();
+            let y = vy + r * phi.sin();
+            let z = vz + slope * r;
+            let rr = x.hypot(y);
+            let pp = y.atan2(x);
+            if z.abs() < 1.15 {
+                if let Some((t, lorentz)) = ctx.inverse_drift(rr, z) {
+                    let tbin = (t / BIN).round() as usize;
+                    if tbin + 20 < NSAMP {
+                        let h = Hit { wire: wire_of_angle(pp + lorentz), tbin, z, amp: amp * rng.gen_range(0.8..1.2) };
+                        add_hit(ctx, &mut ev, &h, sigma);
+                        ev.hits.push(h);
+                    }
+                }
+            }
+            r += 0.0015;
+        }
+    }
+    (ev, ntracks)
+}
